@@ -365,9 +365,7 @@ def getitem(it, base, idx, frame, node):
             if len(idx) == 2 and isinstance(idx[0], slice) and idx[0] == slice(None, None, None) and idx[1] is None and not base.col2d:
                 return Arr(base.cell, base.lo, base.n, col2d=True)  # v[:, np.newaxis]
             raise Unsupported("multi-dim index")
-        i = idx
-        if isinstance(i, int) and i < 0:
-            i = ops.scalar_bin("+", base.n, i)
+        i = _checked_index(it, base, idx, frame, node)
         if is_sym(i):
             it.path.index_term(i, base.n)
         elt = base.vec().f(i)
@@ -385,6 +383,31 @@ def getitem(it, base, idx, frame, node):
     if isinstance(base, Opaque):
         return Opaque(base.tag + "[]")
     raise Unsupported(f"subscript of {type(base).__name__}")
+
+
+def _checked_index(it, base: Arr, idx, frame, node):
+    """scalar subscript a[i]: IndexError unless -n <= i < n (obligation of kind `index` whenever the index or the
+    length is symbolic); negative indices count from the end"""
+    n = base.n
+    i = idx
+    if isinstance(i, bool) or not (isinstance(i, int) or is_sym(i)):
+        return i
+    if isinstance(i, int) and isinstance(n, int):
+        if not (-n <= i < n):
+            raise PyRaise(ExcVal(IndexError, (f"index {i} is out of bounds for axis 0 with size {n}",)), origin=frame.site("index", node) if frame is not None and node is not None else "index")
+        return i + n if i < 0 else i
+    if it.config.get("index_obligations", True) and frame is not None and node is not None:
+        p = it.path
+        iv = z3.IntVal(i) if isinstance(i, int) else (z3.ToInt(i) if z3.is_real(i) else i)
+        nv = z3.IntVal(n) if isinstance(n, int) else n
+        ok = z3.And(iv >= -nv, iv < nv)
+        sub = node if isinstance(node, ast.Subscript) else next((c for c in ast.walk(node) if isinstance(c, ast.Subscript)), node)
+        site = frame.site("index", sub)
+        p.prove(ok, site, kind="index", desc=f"`{ast.unparse(node)}`: index inside the array (no IndexError)", props=it.config.get("implicit_props"))
+        p.assume(ok)
+    if isinstance(i, int):
+        return ops.scalar_bin("+", n, i) if i < 0 else i
+    return i
 
 
 def arr_slice(it, a: Arr, s: slice):
@@ -469,9 +492,7 @@ def setitem(it, base, idx, v, frame, node):
             else:
                 tgt.store_vec(Vec(tgt.n, lambda i: lift(_cast_for(cell, v), kind), kind))
             return
-        i = idx
-        if isinstance(i, int) and i < 0:
-            i = ops.scalar_bin("+", base.n, i)
+        i = _checked_index(it, base, idx, frame, node)
         if is_sym(i):
             it.path.index_term(i, base.n)
         val = lift(_cast_for(cell, v), kind)
